@@ -1,5 +1,6 @@
 import LogosModel.Look.SoundC
 import LogosModel.CertP
+import LogosModel.PartialProof
 /-!
 # Partial lexing with look-around (C07, eagerness)
 
@@ -44,5 +45,271 @@ def specLexPC (V : VecL → Cls → Bool) (prios : List Nat) (D : VecL) (cb : Ca
 /-- state by state: the generated code waits exactly when the reference does -/
 def prefixOKCB (G : Graph) (prios : List Nat) (V : VecL → Cls → Bool) (C : CSetC) : Bool :=
   (List.range C.size).all fun s => (C.getD s []).all fun e => waits (G.get s) == waitsC V prios e.1 e.2
+
+end Logos.LK
+
+namespace Logos.LK
+open Logos
+
+structure ValidPC (G : Graph) (prios : List Nat) (D : VecL) (V : VecL → Cls → Bool)
+    (C : Nat → VecL → Cls → Prop) : Prop where
+  valid : ValidC G prios D V C
+  prefixOK : ∀ s Δ p, C s Δ p → waits (G.get s) = waitsC V prios Δ p
+
+def validPCB (G : Graph) (prios : List Nat) (D : VecL) (V : VecL → Cls → Bool) (C : CSetC) : Bool :=
+  validCB G prios D V C && prefixOKCB G prios V C
+
+theorem validPCB_sound {G : Graph} {prios : List Nat} {D : VecL} {V : VecL → Cls → Bool} {C : CSetC}
+    (h : validPCB G prios D V C = true) : ValidPC G prios D V C.mem := by
+  unfold validPCB at h
+  simp only [Bool.and_eq_true] at h
+  refine ⟨validCB_sound h.1, ?_⟩
+  intro s Δ p hm
+  have h2 := h.2
+  unfold prefixOKCB at h2
+  rw [List.all_eq_true] at h2
+  by_cases hs : s < C.size
+  · have := h2 s (List.mem_range.2 hs)
+    rw [List.all_eq_true] at this
+    simpa using this (Δ, p) hm
+  · have : C.getD s [] = [] := by
+      simp [Array.getD]; omega
+    simp [CSetC.mem, this] at hm
+
+/-- a vector the oracle calls dead does not wait -/
+theorem waitsC_dead {G : Graph} {prios : List Nat} {V : VecL → Cls → Bool} {C : Nat → VecL → Cls → Prop}
+    {t : Nat} {Δ : VecL} {q : Cls} (hl : LocalC G prios V C t Δ q) (hd : V Δ q = false) :
+    waitsC V prios Δ q = false := by
+  unfold waitsC
+  rw [Bool.or_eq_false_iff]
+  constructor
+  · rw [List.any_eq_false]
+    intro b hb
+    rw [hl.dead_closed hd b (List.mem_range.1 hb)]
+    simp
+  · rw [List.any_eq_false]
+    intro n hn
+    rw [hl.dead_nowin hd n hn]
+    simp
+
+/-- prefix-mode `dead_stopsC`. -/
+theorem dead_stopsPC {G : Graph} {prios : List Nat} {D : VecL} {V : VecL → Cls → Bool}
+    {C : Nat → VecL → Cls → Prop} (hv : ValidPC G prios D V C) {t : Nat} {Δ : VecL} {q : Cls}
+    (hC : C t Δ q) (hd : V Δ q = false) (start : Nat) (w : List Nat) (k : Nat)
+    (hk : start < k) (ctx : Option Nat) (tokEnd : Nat) :
+    (G.get t).early = none ∧
+    walk G true start t w k ctx tokEnd =
+      .action k (record (G.get t) k ctx tokEnd).1 (record (G.get t) k ctx tokEnd).2 := by
+  have hl := hv.valid.loc t Δ q hC
+  have nowin : ∀ n l, winC prios q n Δ ≠ some l := by
+    intro n l h; rw [hl.dead_nowin hd n (mem_allCls n)] at h; cases h
+  have hearly : (G.get t).early = none := by
+    cases h : (G.get t).early with
+    | none => rfl
+    | some l => exact absurd (hl.early_ok l h .none (mem_allCls _)) (nowin _ l)
+  refine ⟨hearly, ?_⟩
+  have hwt : waits (G.get t) = false := by
+    rw [hv.prefixOK t Δ q hC]; exact waitsC_dead hl hd
+  obtain ⟨hnorm, heoi⟩ := waits_false hwt
+  cases w with
+  | nil =>
+    simp only [walk]
+    rw [atEoi]
+    have hroot : (t == G.root && start == k) = false := by
+      have : (start == k) = false := by simp; omega
+      simp [this]
+    simp [hnorm, heoi, hroot]
+  | cons b w' =>
+    simp only [walk]
+    rw [next_of_normal_nil hnorm b]
+
+theorem walk_eq_scanPC {G : Graph} {prios : List Nat} {D : VecL} {V : VecL → Cls → Bool}
+    {C : Nat → VecL → Cls → Prop} (hv : ValidPC G prios D V C) (start : Nat) :
+    ∀ (w : List Nat) (st : Nat) (Δ : VecL) (p : Cls) (k : Nat) (ctx : Option Nat) (tokEnd : Nat) (bestPrev : Rec),
+      (∀ b ∈ w, b < 256) → start < k → C st Δ p → EntryInv G st k ctx tokEnd bestPrev →
+      match scanPC V prios Δ p w k (updC prios Δ p (nextOf w .none) k bestPrev) with
+      | none => walk G true start st w k ctx tokEnd = .needMore
+      | some (r, off) =>
+        ∃ off' c e, walk G true start st w k ctx tokEnd = .action off' c e ∧ recOf c e = r ∧
+          (r = none → off' = off) := by
+  intro w
+  induction w with
+  | nil =>
+    intro st Δ p k ctx tokEnd bestPrev _ hk hC he
+    have hl := hv.valid.loc st Δ p hC
+    have hpost := record_postC hl he .none
+    have hpre := hv.prefixOK st Δ p hC
+    simp only [walk, scanPC, nextOf_nil]
+    generalize hr : record (G.get st) k ctx tokEnd = r at hpost
+    obtain ⟨c1, e1⟩ := r
+    simp only at hpost ⊢
+    rw [atEoi]
+    cases hx : waitsC V prios Δ p with
+    | true =>
+      rw [hx] at hpre
+      unfold waits at hpre
+      simp only [if_true, hpre, Bool.and_true]
+    | false =>
+      rw [hx] at hpre
+      obtain ⟨hnorm, heoi⟩ := waits_false hpre
+      have hroot : (st == G.root && start == k) = false := by
+        have : (start == k) = false := by simp; omega
+        simp [this]
+      simp only [hnorm, heoi, hroot]
+      refine ⟨k, c1, e1, by simp, ?_, fun _ => rfl⟩
+      rcases hpost with h | ⟨l, hwn, hne⟩
+      · exact h
+      · rcases hl.win_eoi l hwn with h | ⟨t, ht, _⟩
+        · exact absurd h hne
+        · rw [heoi] at ht; cases ht
+  | cons b w' ih =>
+    intro st Δ p k ctx tokEnd bestPrev hw hk hC he
+    have hb : b < 256 := hw b (by simp)
+    have hw' : ∀ x ∈ w', x < 256 := fun x hx => hw x (by simp [hx])
+    have hl := hv.valid.loc st Δ p hC
+    have hpost := record_postC hl he (clsB b)
+    simp only [walk, nextOf_cons]
+    generalize hr : record (G.get st) k ctx tokEnd = r at hpost
+    obtain ⟨c1, e1⟩ := r
+    simp only at hpost ⊢
+    cases hn : (G.get st).next b with
+    | none =>
+      have hdead := hl.noedge b hb hn
+      simp only [scanPC, hdead]
+      refine ⟨k, c1, e1, rfl, ?_, fun _ => rfl⟩
+      rcases hpost with h | ⟨l, hwn, hne⟩
+      · exact h
+      · rcases hl.win_byte b hb l hwn with h | ⟨t, ht, _⟩
+        · exact absurd h hne
+        · rw [hn] at ht; cases ht
+    | some t =>
+      obtain ⟨h1, h2, h3⟩ := hl.edge b hb t hn
+      have he' : EntryInv G t (k+1) c1 e1 (updC prios Δ p (clsB b) k bestPrev) := by
+        unfold EntryInv
+        cases ha : (G.get t).accept with
+        | some l => simp [updC, h1 l ha]
+        | none =>
+          simp only
+          rcases hpost with h | ⟨l, hwn, hne⟩
+          · exact h
+          · rcases hl.win_byte b hb l hwn with h | ⟨t2, ht2, ha2⟩
+            · exact absurd h hne
+            · rw [hn] at ht2; cases ht2; rw [ha] at ha2; cases ha2
+      simp only
+      cases hvd : V (derivVC p b Δ) (clsB b) with
+      | true =>
+        have := ih t (derivVC p b Δ) (clsB b) (k+1) c1 e1 (updC prios Δ p (clsB b) k bestPrev)
+          hw' (by omega) h3 he'
+        simpa only [scanPC, hvd, if_true] using this
+      | false =>
+        simp only [scanPC, hvd]
+        obtain ⟨htE, hwalk⟩ := dead_stopsPC hv h3 hvd start w' (k+1) (by omega) c1 e1
+        rw [hwalk]
+        have hacc : (G.get t).accept.isSome = true := by
+          rcases h2 with h2 | h2
+          · rw [hvd] at h2; cases h2
+          · exact h2
+        cases ha : (G.get t).accept with
+        | none => rw [ha] at hacc; cases hacc
+        | some l =>
+          have hwin := h1 l ha
+          have hrec : record (G.get t) (k+1) c1 e1 = (some l, k) := by simp [record, htE, ha]
+          rw [hrec]
+          refine ⟨k+1, some l, k, rfl, ?_, ?_⟩
+          · simp [recOf, updC, hwin]
+          · intro h; simp [updC, hwin] at h
+
+/-- one attempt of the partial lexer = one attempt of the reference partial lexer -/
+theorem attemptPC_eq {G : Graph} {prios : List Nat} {D : VecL} {V : VecL → Cls → Bool}
+    {C : Nat → VecL → Cls → Prop} (hv : ValidPC G prios D V C) (inp : List Nat)
+    (hb : ∀ b ∈ inp, b < 256) (start : Nat) :
+    walkAttempt G true inp start = scanAttemptPC V prios D inp start := by
+  obtain ⟨hre, hra⟩ := hv.valid.wf.rootNoRec
+  have hrec : ∀ ctx te, record (G.get G.root) start ctx te = (ctx, te) := by
+    intro ctx te; simp [record, hre, hra]
+  have hbd : ∀ x ∈ inp.drop start, x < 256 := fun x hx => hb x (List.mem_of_mem_drop hx)
+  unfold walkAttempt scanAttemptPC
+  generalize hp0 : prevOf .none (inp.take start) = p0
+  have hroot := hv.valid.root p0 (mem_allCls p0)
+  cases hd : inp.drop start with
+  | nil =>
+    have hlen : inp.length ≤ start := List.drop_eq_nil_iff.1 hd
+    have hpre := hv.prefixOK G.root D p0 hroot
+    simp only [walk, hrec, scanPC]
+    rw [atEoi]
+    cases hx : waitsC V prios D p0 with
+    | true =>
+      rw [hx] at hpre
+      unfold waits at hpre
+      simp [hpre, attemptOfStop]
+    | false =>
+      rw [hx] at hpre
+      obtain ⟨hnorm, heoi⟩ := waits_false hpre
+      simp [hnorm, heoi, attemptOfStop, hlen]
+  | cons b w =>
+    have hlen : ¬ inp.length ≤ start := by
+      intro h
+      have := List.drop_eq_nil_iff.2 h
+      rw [hd] at this; cases this
+    rw [hd] at hbd
+    have hb' : b < 256 := hbd b (by simp)
+    have hw : ∀ x ∈ w, x < 256 := fun x hx => hbd x (by simp [hx])
+    have hl := hv.valid.loc _ _ _ hroot
+    simp only [walk, hrec]
+    cases hn : (G.get G.root).next b with
+    | none =>
+      have hdead := hl.noedge b hb' hn
+      simp [scanPC, hdead, attemptOfStop, hlen]
+    | some t =>
+      obtain ⟨h1, h2, h3⟩ := hl.edge b hb' t hn
+      have hacc : (G.get t).accept = none := by
+        cases ha : (G.get t).accept with
+        | none => rfl
+        | some l =>
+          have := h1 l ha
+          rw [hv.valid.noEmpty p0 (mem_allCls _) (clsB b) (mem_allCls _)] at this; cases this
+      have hvd : V (derivVC p0 b D) (clsB b) = true := by
+        rcases h2 with h2 | h2
+        · exact h2
+        · rw [hacc] at h2; cases h2
+      have he : EntryInv G t (start+1) none start none := by
+        unfold EntryInv; simp [hacc, recOf]
+      have key :=
+        walk_eq_scanPC hv start w t (derivVC p0 b D) (clsB b) (start+1) none start none hw (by omega) h3 he
+      simp only [scanPC, hvd, if_true]
+      generalize scanPC V prios (derivVC p0 b D) (clsB b) w (start+1)
+        (updC prios (derivVC p0 b D) (clsB b) (nextOf w .none) (start+1) none) = r at key
+      cases r with
+      | none =>
+        simp only at key
+        rw [key]
+        simp [attemptOfStop]
+      | some pr =>
+        obtain ⟨r1, r2⟩ := pr
+        obtain ⟨off, c, e, hwalk, hr, hoff⟩ := key
+        rw [hwalk]
+        cases c with
+        | none =>
+          simp [recOf] at hr
+          subst hr
+          have := hoff rfl
+          subst this
+          simp [attemptOfStop, hlen]
+        | some l =>
+          simp [recOf] at hr
+          subst hr
+          simp [attemptOfStop]
+
+/-- **C07 with look-around (eagerness and safety together).** If the certificate and the waiting condition
+validate, the partial lexer yields over every prefix buffer exactly the items of the reference partial
+lexer, which waits exactly as long as the outcome can still change. -/
+theorem partial_eq_specC {G : Graph} {prios : List Nat} {D : VecL} {V : VecL → Cls → Bool}
+    {C : Nat → VecL → Cls → Prop} (hv : ValidPC G prios D V C) (cb : Callbacks) (utf8 : Bool)
+    (inp : List Nat) (hb : ∀ b ∈ inp, b < 256) :
+    graphLex G true cb utf8 inp = specLexPC V prios D cb utf8 inp := by
+  have : walkAttempt G true inp = scanAttemptPC V prios D inp :=
+    funext fun s => attemptPC_eq hv inp hb s
+  unfold graphLex specLexPC
+  rw [this]
 
 end Logos.LK
